@@ -391,7 +391,7 @@ fn filter_case(sink: &Sink, r: &mut Rng, pass_counts: &[usize], saturate: bool) 
     let stranded = r.chance(1, 2);
     let min = r.range(0, 4);
     let report_all = r.chance(1, 2);
-    let mode = r.below(3);
+    let mode = if saturate { 0 } else { r.below(3) };
     let alphas: [&[u8]; 4] = [&[0, 3], &[1, 2], &[0, 1, 2, 3], &[0, 1, 2, 3]];
     let alpha = *r.pick(&alphas);
     let nreads = r.range(0, 5);
@@ -412,8 +412,11 @@ fn filter_case(sink: &Sink, r: &mut Rng, pass_counts: &[usize], saturate: bool) 
         reads.push(FRead { s, l: rl, r: rr, label: if r.chance(1, 3) { 7 } else { i as u32 } });
     }
     if saturate {
-        // one k-mer observed more than 65535 times: the count payload must saturate, not wrap
-        let s: Vec<u8> = vec![0; k + 65_540 - 1];
+        // one k-mer observed more than 65535 times: the count payload must saturate, not wrap, and the extensions
+        // must still be the union over ALL observations - the base that follows the run is seen only by the last one
+        let mut s: Vec<u8> = vec![2];
+        s.extend(vec![0u8; k + 65_540 - 1]);
+        s.push(1);
         reads.push(FRead { s, l: vec![], r: vec![], label: 99 });
     }
     let maxlen = reads.iter().map(|x| x.s.len()).max().unwrap_or(0);
@@ -444,8 +447,7 @@ fn filter_case(sink: &Sink, r: &mut Rng, pass_counts: &[usize], saturate: bool) 
             None => continue,
         };
         let reads_json: Vec<Value> = reads.iter().map(|x| {
-            if x.s.len() > 1000 { json!({"s": [], "hom": [x.s[0], x.s.len()], "l": x.l, "r": x.r, "label": x.label}) }
-            else { json!({"s": x.s, "l": x.l, "r": x.r, "label": x.label}) }}).collect();
+            json!({"s": x.s, "l": x.l, "r": x.r, "label": x.label})}).collect();
         let desc = json!({"op":"filter","K":k,"st":stranded,"min":min,"report_all":report_all,"mode":mode,"vt":vt,
             "want_passes":want,"slices":slices,"reads":reads_json,"saturate":saturate});
         let case = sink.begin_case(&desc);
@@ -539,8 +541,11 @@ pub fn record(sink: &Sink, args: &Args) {
                 filter_case(sink, &mut r, &pc, false);
             }
         }
+        // saturating counts: one input with a k-mer observed 65 540 times (one pass count in the quick tier)
         if thorough {
             filter_case(sink, &mut r, &[1, 3, 256], true);
+        } else {
+            filter_case(sink, &mut r, &[2], true);
         }
     }
 }
